@@ -378,6 +378,11 @@ func (w *World) KubeletStep() {
 				if b.Restarts > cs.RestartCount {
 					cs.RestartCount = b.Restarts
 					cs.LastTerminationState = corev1.ContainerState{Terminated: &corev1.ContainerStateTerminated{Reason: "Error", ExitCode: 1, FinishedAt: metav1.NewTime(now)}}
+					if strings.HasSuffix(nodeName, "3") {
+						// this node's kubelet reports the restart count but lost the record of the last
+						// termination (lastState: {}), as after a kubelet restart or container garbage collection
+						cs.LastTerminationState = corev1.ContainerState{}
+					}
 				}
 				css = append(css, cs)
 			}
